@@ -20,6 +20,16 @@ reveal_type(<every parameter>) and returns (stores) locals(), and one call per l
 code -> spec: TraceC13.tla recomputes Bind for every call and judges (ORACLE lines: CPython differs
 from the spec; BAD lines: pytype differs, with the spec-computed attribution to the documented
 deviation; DIV lines: informational; STAT lines: spec-side classification for vacuity guards).
+
+Histories (strengthening after a seeded change): ArgBind.tla has Return / SetDefaults - a behaviour
+is define, call*, SetDefaults, call*, ... and every call is bound against the CURRENT defaults.  A
+third TLC run checks the machine with histories (HistoryOK, RedefLawsHold), a fourth exports
+(definition, history) pairs with the call shapes that are sensitive to the history.  The driver
+renders `<callee>.__defaults__ = (D1_b1(), ..)` / `<callee>.__kwdefaults__ = {"k1": D1_k1()}`
+between the calls of a module (function, method through the class, staticmethod, __init__, lambda),
+executes the same statements under CPython (oracle of the spec for every call) and TraceC13.tla
+advances the signature with the spec's Redefine and judges every call against the stage it was made
+in (error iff TypeError, revealed parameter types incl. the generation of the default values).
 """
 import argparse
 import concurrent.futures as cf
@@ -38,7 +48,7 @@ import pyt  # noqa: E402
 import tlc  # noqa: E402
 
 PID = "C13"
-MODEL_INVS = ("TypeOK", "MachineIsFunction", "LawsHold", "KindsSound")
+MODEL_INVS = ("TypeOK", "MachineIsFunction", "LawsHold", "KindsSound", "HistoryOK", "RedefLawsHold")
 PO = ["a1", "a2", "a3"]
 PK = ["b1", "b2", "b3"]
 KO = ["k1", "k2", "k3"]
@@ -46,16 +56,30 @@ FOREIGN = ["z"]
 KINDS = ("function", "method", "classmethod", "staticmethod", "constructor")
 ARITY = ("wrong-arg-count", "wrong-keyword-args", "missing-parameter", "duplicate-keyword-argument")
 DEV_KEY = "C13:posonly-name-as-keyword-with-kwargs"
+# spec-computed attributions (TraceC13.tla Attribution) -> keys of the documented deviations
+DEV_KEYS = {"posonly": [DEV_KEY],
+            "dropkw": ["C13:defaults-assignment-drops-kwonly-defaults"],
+            "kwignored": ["C13:kwdefaults-assignment-ignored"],
+            "dropkw+kwignored": ["C13:defaults-assignment-drops-kwonly-defaults",
+                                 "C13:kwdefaults-assignment-ignored"]}
 CHUNK = 130   # calls per generated module
+# callables whose defaults are re-assigned in the history family, and the expression that is assigned to
+HKINDS = ("function", "method", "lambda", "staticmethod", "constructor")
+REDEF_TARGET = {"function": "f", "lambda": "f", "method": "C.m", "staticmethod": "C.sm",
+                "constructor": "C.__init__"}
 
 
-def model_cfg(n, maxpos, maxkw, star, mod=1, rem=0, export=False):
-  head = "INIT Init\nNEXT OnlySigs\n" if export else "SPECIFICATION Spec\n"
-  invs = ("ExportInv",) if export else MODEL_INVS
+def model_cfg(n, maxpos, maxkw, star, mod=1, rem=0, export=False, maxredef=0):
+  """export: False (check the machine), True / "sigs" (signatures with every call shape),
+  "hists" (histories of <= maxredef re-assignments with their sensitive call shapes)."""
+  export = {False: "none", True: "sigs"}.get(export, export)
+  head = {"none": "SPECIFICATION Spec\n", "sigs": "INIT Init\nNEXT OnlySigs\n",
+          "hists": "INIT Init\nNEXT OnlyHists\n"}[export]
+  invs = ("ExportInv",) if export != "none" else MODEL_INVS
   return (head + "CONSTANTS N = %d\n MaxPos = %d\n MaxKw = %d\n Foreign = {%s}\n StarNames = %s\n"
-          " SampleMod = %d\n SampleRem = %d\n Export = %s\n" % (
+          " SampleMod = %d\n SampleRem = %d\n Export = \"%s\"\n MaxRedef = %d\n" % (
               n, maxpos, maxkw, ", ".join('"%s"' % f for f in FOREIGN), "TRUE" if star else "FALSE",
-              mod, rem, "TRUE" if export else "FALSE")
+              mod, rem, export, maxredef)
           + "".join("INVARIANT %s\n" % i for i in invs))
 
 
@@ -92,11 +116,31 @@ def revealed(sig):
   return param_names(sig) + (["va"] if sig["va"] else []) + (["kw"] if sig["kw"] else [])
 
 
-def render_header(sig, kind, maxpos, names):
+def redef_names(sig, r):
+  """Parameters that receive a default by re-assignment r."""
+  if r["attr"] == "pos":
+    pos = PO[:sig["po"]] + PK[:sig["pk"]]
+    common.require(0 <= r["pdef"] <= len(pos), "re-assignment of %d positional defaults" % r["pdef"])
+    return pos[len(pos) - r["pdef"]:]
+  return [n for n in KO[:sig["ko"]] if n in r["kdef"]]
+
+
+def redef_text(sig, kind, r, g):
+  """The statement of the g-th re-assignment of a history."""
+  vals = ["D%d_%s()" % (g, n) for n in redef_names(sig, r)]
+  if r["attr"] == "pos":
+    return "%s.__defaults__ = (%s%s)" % (REDEF_TARGET[kind], ", ".join(vals), "," if len(vals) == 1 else "")
+  return "%s.__kwdefaults__ = {%s}" % (REDEF_TARGET[kind], ", ".join(
+      '"%s": %s' % (n, v) for n, v in zip(redef_names(sig, r), vals)))
+
+
+def render_header(sig, kind, maxpos, names, redefs=()):
   """Marker classes and the callee.  Returns (lines, callee expression, {line: revealed name})."""
   lines = ["class P%d: pass" % i for i in range(1, maxpos + 1)]
   lines += ["class K_%s: pass" % n for n in names]
   lines += ["class D_%s: pass" % n for n in param_names(sig)]
+  for g, r in enumerate(redefs, 1):
+    lines += ["class D%d_%s: pass" % (g, n) for n in redef_names(sig, r)]
   rev = {}
   ind = "  " if kind == "function" else "    "
 
@@ -108,6 +152,14 @@ def render_header(sig, kind, maxpos, names):
   if kind == "function":
     lines.append("def f(%s):" % sig_text(sig))
     body("return locals()")
+    callee = "f"
+  elif kind == "lambda":
+    # one reveal_type per line so that the line identifies the parameter
+    lines.append("f = (lambda %s: (" % sig_text(sig))
+    for n in revealed(sig):
+      rev[len(lines) + 1] = n
+      lines.append("  reveal_type(%s)," % n)
+    lines.append("  locals())[-1])")
     callee = "f"
   else:
     lines.append("class C:")
@@ -160,15 +212,20 @@ def classify(msg):
   return "other:" + msg
 
 
-def cpython_obs(header, callee, sig, calls):
-  """Execute the header text; evaluate every call expression; inspect.signature(callee).bind."""
+def cpython_obs(header, callee, sig, calls, stmts=None):
+  """Execute the header text; evaluate every call expression; inspect.signature(callee).bind.
+  stmts: {k: [statements executed (in order) before call k]} - the re-assignments of a history."""
   ns = {"reveal_type": lambda x: x}
   exec(compile(header, "<c13-header>", "exec"), ns)   # pylint: disable=exec-used
   ns["_cap"] = lambda *a, **k: (a, k)
   target = eval(callee, ns)   # pylint: disable=eval-used
   isig = inspect.signature(target)
   out = []
-  for c in calls:
+  for j, c in enumerate(calls):
+    for st in (stmts or {}).get(j, ()):
+      exec(compile(st, "<c13-history>", "exec"), ns)   # pylint: disable=exec-used
+      target = eval(callee, ns)   # pylint: disable=eval-used
+      isig = inspect.signature(target)
     at = args_text(c)
     a, k = eval("_cap(%s)" % at, ns)   # pylint: disable=eval-used
     try:
@@ -320,14 +377,20 @@ def pytype_obs(src, sig, rev, call_lines):
 
 def work(item):
   """Worker: one (signature, kind) module.  Returns (case, other errors, n reveals)."""
-  sig, kind, calls, maxpos = item
+  sig, kind, calls, maxpos = item[:4]
+  redefs = list(item[4]) if len(item) > 4 else []
   names = sorted({k for c in calls for k in c["kws"]})
-  hl, callee, rev = render_header(sig, kind, max([maxpos] + [c["npos"] for c in calls]), names)
+  hl, callee, rev = render_header(sig, kind, max([maxpos] + [c["npos"] for c in calls]), names, redefs)
   header = "\n".join(hl) + "\n"
-  py = cpython_obs(header, callee, sig, calls)
+  stmts = {}
+  for g, r in enumerate(redefs, 1):
+    stmts.setdefault(r["at"], []).append(redef_text(sig, kind, r, g))
+  common.require(all(0 <= a < len(calls) for a in stmts), "a re-assignment after the last call")
+  py = cpython_obs(header, callee, sig, calls, stmts)
   call_lines = {}
   lines = list(hl)
   for k, c in enumerate(calls):
+    lines += stmts.get(k, [])
     call_lines[len(lines) + 1] = k
     lines.append("%s(%s)" % (callee, args_text(c)))
   src = "\n".join(lines) + "\n"
@@ -338,16 +401,23 @@ def work(item):
     pt = [{"errs": [], "rev": False, "slots": {"_": []}, "va": [], "vashape": "none", "kw": [], "kwkey": []}
           for _ in calls]
   case = {"sig": sig, "kind": kind, "crash": crash,
+          "redefs": [{"at": r["at"], "attr": r["attr"], "pdef": r["pdef"], "kdef": sorted(r["kdef"])}
+                     for r in redefs],
           "calls": [{"npos": c["npos"], "kws": c["kws"], "py": py[k], "pt": pt[k]}
                     for k, c in enumerate(calls)]}
   return case, other
 
 
-def program_of(sig, kind, call):
-  """The minimal program for a message / replay file."""
+def program_of(sig, kind, call, redefs=()):
+  """The minimal program for a message / replay file (redefs: the re-assignments made before the call)."""
   names = sorted(call["kws"])
-  hl, callee, _ = render_header(sig, kind, call["npos"], names)
+  hl, callee, _ = render_header(sig, kind, call["npos"], names, redefs)
+  hl += [redef_text(sig, kind, r, g) for g, r in enumerate(redefs, 1)]
   return "\n".join(hl + ["%s(%s)" % (callee, args_text(call))]) + "\n"
+
+
+def hist_text(sig, kind, redefs):
+  return "".join("; " + redef_text(sig, kind, r, g) for g, r in enumerate(redefs, 1))
 
 
 # ---------------------------------------------------------------------------------------------
@@ -408,7 +478,26 @@ def judge(run, items, procs=8):
       c = cases[idx[rec["i"] - 1]]
       common.require(len(rec["calls"]) == len(c["calls"]), "STAT line does not cover its case")
       skey = sig_text(c["sig"])
-      for call, (ek, nva, nkw, dev) in zip(c["calls"], rec["calls"]):
+      hist = bool(c["redefs"])
+      for call, (ek, nva, nkw, dev, stage, effect) in zip(c["calls"], rec["calls"]):
+        if hist:
+          # the history family has its own counters (the guards of the plain families stay as they were)
+          run.add("hist_calls")
+          run.add("hist_calls_stage%d" % min(stage, 2))
+          if stage:
+            run.add("hist_after_%s_%s" % (c["redefs"][stage - 1]["attr"], ek))
+            if effect:
+              run.add("hist_%s" % effect)
+              run.add("hist_%s_%s" % (effect, c["kind"]))
+              run.add("hist_%s_%s" % (effect, c["redefs"][stage - 1]["attr"]))
+              if effect not in sampled and c["redefs"][stage - 1]["attr"] == "pos" and not c["sig"]["ko"]:
+                sampled.add(effect)
+                run.sample({"program": program_of(c["sig"], c["kind"], call, c["redefs"][:stage]),
+                            "spec": ek, "effect_of_reassignment": effect,
+                            "cpython": call["py"], "pytype": call["pt"]})
+          pairs[(skey + hist_text(c["sig"], c["kind"], c["redefs"][:stage]), call["npos"],
+                 tuple(sorted(call["kws"])))] = True
+          continue
         run.add("calls_" + ek)
         run.add("calls_%s_%s" % ("err" if ek != "none" else "bound", c["kind"]))
         if ek == "none" and nva:
@@ -437,9 +526,11 @@ def judge(run, items, procs=8):
                          "calls": [{"npos": x["npos"], "kws": x["kws"]} for x in c["calls"]]})
           continue
         call = c["calls"][k - 1]
-        prog = program_of(c["sig"], c["kind"], call)
-        what = ("%s: def f(%s) as %s, call (%s): pytype errors %s, revealed %s; CPython: %s" % (
-            clause, sig_text(c["sig"]), c["kind"], args_text(call), call["pt"]["errs"],
+        before = [dict(r, at=0) for r in c["redefs"] if r["at"] < k]
+        prog = program_of(c["sig"], c["kind"], call, before)
+        what = ("%s: def f(%s) as %s%s, call (%s): pytype errors %s, revealed %s; CPython: %s" % (
+            clause, sig_text(c["sig"]), c["kind"], hist_text(c["sig"], c["kind"], before),
+            args_text(call), call["pt"]["errs"],
             json.dumps({n: v for n, v in call["pt"]["slots"].items() if n != "_"}
                        | ({"*va": call["pt"]["va"]} if c["sig"]["va"] else {})
                        | ({"**kw": call["pt"]["kw"]} if c["sig"]["kw"] else {}), sort_keys=True),
@@ -448,14 +539,18 @@ def judge(run, items, procs=8):
                 | ({"*va": call["py"]["va"]} if c["sig"]["va"] else {})
                 | ({"**kw": call["py"]["kw"]} if c["sig"]["kw"] else {}), sort_keys=True)))
         if dev:
-          key = DEV_KEY
-          run.add("posonly_kw_dev_" + clause.split(":")[0])
+          common.require(dev in DEV_KEYS, "unknown attribution %r from TraceC13" % dev)
+          keys = DEV_KEYS[dev]
+          run.add(("posonly_kw_dev_" if dev == "posonly" else "hist_dev_%s_" % dev) + clause.split(":")[0])
         else:
-          key = "C13:" + re.sub(r"^(wrong-param):.*$", r"\1", clause)
-        run.violation(key, what, {"sig": c["sig"], "kind": c["kind"],
-                                  "call": {"npos": call["npos"], "kws": call["kws"]},
-                                  "clause": clause, "observed": call["pt"], "cpython": call["py"],
-                                  "program": prog})
+          # a failure that only shows after a re-assignment of the defaults is keyed as such
+          keys = ["C13:" + ("after-defaults-reassignment:" if before else "")
+                  + re.sub(r"^(wrong-param):.*$", r"\1", clause)]
+        for key in keys:
+          run.violation(key, what, {"sig": c["sig"], "kind": c["kind"], "redefs": before,
+                                    "call": {"npos": call["npos"], "kws": call["kws"]},
+                                    "clause": clause, "observed": call["pt"], "cpython": call["py"],
+                                    "program": prog})
   return ncalls
 
 
@@ -482,6 +577,67 @@ def canon_calls(cs, rng):
   return out
 
 
+def call_key(c):
+  return (c["npos"], tuple(sorted(c["kws"])))
+
+
+def history_items(run, rng, hists, base_calls, per_sig, want_len, maxpos):
+  """Modules of the history family.  hists: the CASE records of the "hists" export
+  ([sig, redefs, flip, dflt]); base_calls: {signature text: every call shape of the plain export}.
+  Per definition `per_sig` = (#histories that shrink the positional defaults, #other __defaults__
+  histories, #__kwdefaults__ histories) are drawn (seeded) among the histories of length want_len;
+  the kind of callable rotates.  Module = <=3 sensitive calls, the re-assignment(s), then the
+  sensitive calls (all `flip` up to 14, 6 `dflt`) and 3 other call shapes."""
+  by_sig = {}
+  for h in hists:
+    if len(h["redefs"]) != want_len:
+      continue
+    by_sig.setdefault(json.dumps(canon_sig(h["sig"]), sort_keys=True), []).append(h)
+  items = []
+  rot = rng.randrange(len(HKINDS))
+  for skey in sorted(by_sig):
+    hs = sorted(by_sig[skey], key=lambda h: json.dumps(h["redefs"], sort_keys=True))
+    sig = canon_sig(hs[0]["sig"])
+
+    def shrinks(h):
+      # positional defaults are removed somewhere along the history
+      cur, out = sig["pdef"], False
+      for r in h["redefs"]:
+        if r["attr"] == "pos":
+          out, cur = out or r["pdef"] < cur, r["pdef"]
+      return out
+    groups = ([h for h in hs if shrinks(h)],
+              [h for h in hs if not shrinks(h) and any(r["attr"] == "pos" for r in h["redefs"])],
+              [h for h in hs if all(r["attr"] == "kw" for r in h["redefs"])])
+    chosen = [h for g, k in zip(groups, per_sig) for h in pick(rng, g, k)]
+    for h in chosen:
+      kind = HKINDS[rot % len(HKINDS)]
+      rot += 1
+      flip = canon_calls(h["flip"], rng)
+      dflt = canon_calls(h["dflt"], rng)
+      sens = {call_key(c) for c in flip + dflt}
+      other = [c for c in base_calls.get(sig_text(sig), []) if call_key(c) not in sens]
+      before = pick(rng, flip + dflt, 3)
+      after = pick(rng, flip, 14) + pick(rng, dflt, 6) + pick(rng, other, 3)
+      if not after:
+        after = [{"npos": 0, "kws": []}]
+      # the re-assignments are spread over the calls: the first after `before`, later ones further on
+      calls = before + after
+      redefs = []
+      for j, r in enumerate(h["redefs"]):
+        at = len(before) if j == 0 else min(len(calls) - 1, len(before) + j * max(1, len(after) // want_len))
+        redefs.append({"at": at, "attr": r["attr"], "pdef": r["pdef"], "kdef": sorted(r["kdef"])})
+      if want_len > 1:
+        # every stage sees the sensitive calls again
+        calls = before + after * want_len
+        step = len(after)
+        for j, r in enumerate(redefs):
+          r["at"] = len(before) + j * step
+      items.append((sig, kind, calls, maxpos, redefs))
+  run.add("hist_modules", len(items))
+  return items
+
+
 def main():
   ap = argparse.ArgumentParser()
   ap.add_argument("--tier", default="quick")
@@ -495,10 +651,13 @@ def main():
     sig = canon_sig(case["sig"])
     calls = [{"npos": c["npos"], "kws": list(c["kws"])} for c in case.get("calls") or [case["call"]]]
     call = calls[0]
-    n = judge(run, [(sig, case.get("kind", "function"), calls, max(c["npos"] for c in calls))])
+    redefs = [{"at": r.get("at", 0), "attr": r["attr"], "pdef": r["pdef"], "kdef": list(r["kdef"])}
+              for r in case.get("redefs") or []]
+    n = judge(run, [(sig, case.get("kind", "function"), calls, max(c["npos"] for c in calls), redefs)])
     run.put("traces_validated_against_impl", n)
     run.put("states", 1); run.put("transitions", 1)
     run.sample({"def": "def f(%s)" % sig_text(sig), "kind": case.get("kind", "function"),
+                "history": hist_text(sig, case.get("kind", "function"), redefs),
                 "calls": [args_text(c) for c in calls]})
     return run.finish()
   thorough = run.tier == "thorough"
